@@ -585,18 +585,36 @@ impl C18 {
 /// for a bisecting indexer: every probe lands in the long last line), 4..=10 pairs, both endings;
 /// and the same with lines beyond 8 KiB in the middle of runs
 fn geometric_layouts() -> Vec<Case> {
+    // byte length of line #i for chromosome code c without its payload: "name\ts\te" + '\n'
+    let plain_len = |c: u8, i: usize| -> u32 {
+        let name = if (c as usize) < NAMES.len() { NAMES[c as usize].to_string() } else { format!("{}_{}", NAMES[c as usize % NAMES.len()], c as usize / NAMES.len()) };
+        let s = i as u32 * 10;
+        (format!("{}\t{}\t{}", name, s, s + 5).len() + 1) as u32
+    };
     let mut v = vec![];
-    for pairs in 4..=10usize {
-        for final_newline in [true, false] {
-            let mut lines: Vec<(u8, u32)> = vec![];
-            let mut bytes = 0u32;
-            for k in 0..pairs {
-                lines.push(((2 * k) as u8, 0));
-                bytes += 16;
-                lines.push(((2 * k + 1) as u8, bytes));
-                bytes += 16 + bytes;
+    // short, long, short, long, ...: every long line is (everything before it) + delta bytes long
+    for pairs in 4..=9usize {
+        for delta in [-2i64, -1, 0, 1, 2, 17] {
+            for (final_newline, long_first) in [(true, false), (false, false), (true, true)] {
+                let mut lines: Vec<(u8, u32)> = vec![];
+                let mut bytes = 0u32;
+                if !long_first {
+                    bytes += plain_len(0, 0);
+                    lines.push((0, 0));
+                }
+                for _ in 0..pairs {
+                    let c = lines.len() as u8;
+                    let plain = plain_len(c, lines.len());
+                    let target = (bytes as i64 + delta).max(plain as i64 + 2) as u32;
+                    let extra = target - plain - 1; // the TAB in front of the payload
+                    lines.push((c, extra));
+                    bytes += plain + 1 + extra;
+                    let c = lines.len() as u8;
+                    bytes += plain_len(c, lines.len());
+                    lines.push((c, 0));
+                }
+                v.push(Case::TextFile { lines, final_newline, grouped: true });
             }
-            v.push(Case::TextFile { lines, final_newline, grouped: true });
         }
     }
     for long in [8191u32, 8192, 8193, 20_000, 70_000] {
